@@ -604,6 +604,176 @@ func ctxLayers(tier string) []Layer {
 			},
 		})
 	}
+	// A3: the factories (one rounding of the exact argument to the context) and every operation on
+	// every combination of operand classes (signs of zeros, infinities, NaN latch)
+	{
+		type fac struct {
+			name string
+			num  *big.Int
+			den  *big.Int
+			mk   func(cx *dctx.Context) *Dec
+		}
+		var facs []fac
+		for _, nd := range [][2]string{{"1249", "2"}, {"-1249", "2"}, {"15", "7"}, {"1", "1006"}, {"22", "7"}, {"1", "3"}, {"-2", "3"}, {"123456789", "1000"}, {"99995", "10"}, {"12345678901234567890123", "7"}, {"1", "12345678901234567890123"}, {"999999999999", "1000001"}} {
+			n, d := mustInt(nd[0]), mustInt(nd[1])
+			facs = append(facs, fac{"NewRat(" + nd[0] + "/" + nd[1] + ")", n, d, func(cx *dctx.Context) *Dec { return cx.NewRat(new(big.Rat).SetFrac(n, d)) }})
+		}
+		for _, is := range []string{"1249", "-99995", "12345678901234567891", "-12345678901234567891", "18446744073709551615", "25", "0"} {
+			n := mustInt(is)
+			facs = append(facs, fac{"NewInt(" + is + ")", n, big1, func(cx *dctx.Context) *Dec { return cx.NewInt(new(big.Int).Set(n)) }})
+			if n.IsInt64() {
+				facs = append(facs, fac{"NewInt64(" + is + ")", n, big1, func(cx *dctx.Context) *Dec { return cx.NewInt64(n.Int64()) }})
+			}
+			if n.IsUint64() {
+				facs = append(facs, fac{"NewUint64(" + is + ")", n, big1, func(cx *dctx.Context) *Dec { return cx.NewUint64(n.Uint64()) }})
+			}
+			facs = append(facs, fac{"NewString(" + is + "e-3)", n, big.NewInt(1000), func(cx *dctx.Context) *Dec { d, _ := cx.NewString(is + "e-3"); return d }})
+			facs = append(facs, fac{"ParseDecimal(" + is + ")", n, big1, func(cx *dctx.Context) *Dec { d, _, _ := cx.ParseDecimal(is, 10); return d }})
+		}
+		for _, fs := range []string{"1249.5", "-0.375", "99995", "4503599627370497"} {
+			f, _, _ := big.ParseFloat(fs, 10, 200, big.ToNearestEven)
+			r, _ := f.Rat(nil)
+			facs = append(facs, fac{"NewFloat(" + fs + ")", r.Num(), r.Denom(), func(cx *dctx.Context) *Dec { return cx.NewFloat(f) }})
+		}
+		fprecs := []uint{1, 2, 3, 5, 19, 20, 34}
+		layers = append(layers, Layer{
+			Name:   "A3-factories",
+			Units:  len(facs),
+			Bounds: fmt.Sprintf("%d factory calls (NewRat of 12 rationals whose numerator or denominator is longer than the precision, NewInt / NewInt64 / NewUint64 / NewString / ParseDecimal of 7 integers, NewFloat of 4 binary-exact values) × context precision %v × 6 modes: the result is the exact argument rounded once, with truthful accuracy and the context's precision and mode", len(facs), fprecs),
+			Run: func(c *Ctx, u int) {
+				f := facs[u]
+				for _, p := range fprecs {
+					for _, m := range M6 {
+						if c.Skip() {
+							continue
+						}
+						c.NonTrivial()
+						cx := dctx.New(p, decimal.RoundingMode(m))
+						var z *Dec
+						pv, _ := protect(func() { z = f.mk(&cx) })
+						key := fmt.Sprintf("Context(prec %d, %s).%s", p, modeName(m), f.name)
+						if pv != nil || z == nil {
+							c.Fail(key, fmt.Sprintf("panic %v / nil result", pv))
+							continue
+						}
+						var exp RRes
+						if f.num.Sign() == 0 {
+							exp = RRes{Form: fZero}
+						} else {
+							exp = PrepRat(new(big.Int).Abs(f.num), f.den, 0, uint32(p)).Apply(f.num.Sign() < 0, m)
+						}
+						o := Observe(z)
+						// NewFloat: C15 bounds the error of an inexact conversion by a few dozen units; here only
+						// the conversions that fit the precision are judged (they must be exact)
+						if !strings.HasPrefix(f.name, "NewFloat") || exp.Acc == 0 {
+							if msg := judgeFull(o, nil, false, exp, !strings.HasPrefix(f.name, "NewFloat")); msg != "" {
+								c.Fail(key, msg)
+							}
+						}
+						if uint(o.Prec) != p || o.Mode != m {
+							c.Fail(key+" attributes", fmt.Sprintf("result has precision %d mode %s", o.Prec, modeName(o.Mode)))
+						}
+					}
+				}
+			},
+		})
+		cls := []*Opnd{mkSpecial(fZero, false, 5, 0), mkSpecial(fZero, true, 5, 0), mkSpecial(fInf, false, 5, 0), mkSpecial(fInf, true, 5, 0),
+			mkInt64(3, 0, 5, 0), mkInt64(-3, 0, 5, 0), mkInt64(12345, -2, 9, 0), mkInt64(-4, 0, 5, 0)}
+		type cop struct {
+			name  string
+			arity int
+			run   func(cx *dctx.Context, z *Dec, a []*Dec)
+			model func(v []Val, p uint32, m uint8) RRes
+		}
+		cops := []cop{
+			{"Add", 2, func(cx *dctx.Context, z *Dec, a []*Dec) { cx.Add(z, a[0], a[1]) }, func(v []Val, p uint32, m uint8) RRes { return ModelAdd(v[0], v[1], p, m) }},
+			{"Sub", 2, func(cx *dctx.Context, z *Dec, a []*Dec) { cx.Sub(z, a[0], a[1]) }, func(v []Val, p uint32, m uint8) RRes { return ModelSub(v[0], v[1], p, m) }},
+			{"Mul", 2, func(cx *dctx.Context, z *Dec, a []*Dec) { cx.Mul(z, a[0], a[1]) }, func(v []Val, p uint32, m uint8) RRes { return ModelMul(v[0], v[1], p, m) }},
+			{"Quo", 2, func(cx *dctx.Context, z *Dec, a []*Dec) { cx.Quo(z, a[0], a[1]) }, func(v []Val, p uint32, m uint8) RRes { return ModelQuo(v[0], v[1], p, m) }},
+			{"FMA", 3, func(cx *dctx.Context, z *Dec, a []*Dec) { cx.FMA(z, a[0], a[1], a[2]) }, func(v []Val, p uint32, m uint8) RRes { return ModelFMA(v[0], v[1], v[2], p, m) }},
+			{"Sqrt", 1, func(cx *dctx.Context, z *Dec, a []*Dec) { cx.Sqrt(z, a[0]) }, func(v []Val, p uint32, m uint8) RRes { return ModelSqrt(v[0], p, m) }},
+			{"Set", 1, func(cx *dctx.Context, z *Dec, a []*Dec) { cx.Set(z, a[0]) }, func(v []Val, p uint32, m uint8) RRes { return RoundVal(v[0], p, m) }},
+		}
+		layers = append(layers, Layer{
+			Name:   "A4-operand-classes",
+			Units:  len(cops),
+			Bounds: fmt.Sprintf("Context.Add/Sub/Mul/Quo/FMA/Sqrt/Set on every tuple of operands from {+0, −0, +Inf, −Inf, 3, −3, 123.45, −4} (8, 64 or 512 tuples), context precision {2, 7}, 6 modes, receiver fresh / previously −Inf: the result (sign of zeros, infinities) equals the reference; an invalid combination does not panic and latches ErrNaN: the next operation returns its receiver untouched, Err() returns the ErrNaN once and re-arms the context"),
+			Run: func(c *Ctx, u int) {
+				op := cops[u]
+				n := 1
+				for i := 0; i < op.arity; i++ {
+					n *= len(cls)
+				}
+				for t := 0; t < n; t++ {
+					idx := []int{t % len(cls), t / len(cls) % len(cls), t / len(cls) / len(cls) % len(cls)}[:op.arity]
+					for _, p := range []uint{2, 7} {
+						for _, m := range M6 {
+							for rk := 0; rk < 2; rk++ {
+								if c.Skip() {
+									continue
+								}
+								c.NonTrivial()
+								var args []*Dec
+								var vals []Val
+								desc := ""
+								for _, i := range idx {
+									args = append(args, cls[i].Build())
+									vals = append(vals, cls[i].V)
+									desc += " " + cls[i].String()
+								}
+								cx := dctx.New(p, decimal.RoundingMode(m))
+								z := new(Dec)
+								if rk == 1 {
+									z = buildPre(preNegInf, 3, ToZero)
+								}
+								key := fmt.Sprintf("Context(prec %d, %s).%s%s receiver-kind=%d", p, modeName(m), op.name, desc, rk)
+								pv, _ := protect(func() { op.run(&cx, z, args) })
+								if pv != nil {
+									c.Fail(key, fmt.Sprintf("panic: %v", pv))
+									continue
+								}
+								exp := op.model(vals, uint32(p), m)
+								if exp.NaN {
+									// the invalid operation itself only has to leave a well-formed receiver; every LATER
+									// operation must return its receiver untouched until Err() is called
+									if msg := Canonical(Observe(z)); msg != "" {
+										c.Fail(key, "receiver of the invalid operation malformed: "+msg)
+									}
+									three := mkInt64(3, 0, 5, 0).Build()
+									w := buildPre(preInexact, 9, ToPositiveInf)
+									before := Observe(w)
+									pv, _ := protect(func() { cx.Mul(w, three, three) })
+									if after := Observe(w); pv != nil || after.String() != before.String() {
+										c.Fail(key, fmt.Sprintf("operation after the invalid one: panic %v, receiver %s -> %s (must stay untouched)", pv, before, after))
+									}
+									err := cx.Err()
+									if err == nil {
+										c.Fail(key, "invalid operation but Err() == nil; receiver "+Observe(z).String())
+									} else if _, ok := err.(decimal.ErrNaN); !ok {
+										c.Fail(key, fmt.Sprintf("Err() = %T, want decimal.ErrNaN", err))
+									} else if again := cx.Err(); again != nil {
+										c.Fail(key, "Err() returned the error twice")
+									}
+									cx.Mul(w, three, three)
+									if msg := judgeFull(Observe(w), nil, false, ModelMul(Val{Form: fFinite, Coef: big.NewInt(3)}, Val{Form: fFinite, Coef: big.NewInt(3)}, uint32(p), m), true); msg != "" {
+										c.Fail(key, "operation after Err(): "+msg)
+									}
+									continue
+								}
+								if err := cx.Err(); err != nil {
+									c.Fail(key, fmt.Sprintf("Err() = %v for a valid operation", err))
+									continue
+								}
+								if msg := judgeFull(Observe(z), nil, false, exp, op.name != "Sqrt"); msg != "" {
+									c.Fail(key, msg)
+								}
+							}
+						}
+					}
+				}
+			},
+		})
+	}
 	// A2: operands long enough for the recursive division and Karatsuba paths, into fresh receivers and
 	// into receivers that held long values before (the context must deliver the correctly rounded
 	// result whatever the receiver was)
